@@ -509,6 +509,60 @@ func main() {
 		checkGeometry(c, g)
 		nt(c, g)
 	})
+	// size: long coordinate lists and many features (a limit, a depth count or a buffer keyed to the number of
+	// members must not turn a document the library wrote into one it cannot read)
+	sizeNs := []int{33, 97, 98, 99, 100, 101, 129, 257, 1025}
+	r.Explore("sizes", fmt.Sprintf("5 kinds holding one list of %v points, and feature collections of that many features: JSON and BSON round trips", sizeNs), mc.Opts{MaxDev: -1}, func(c *mc.Ctx) {
+		n := sizeNs[c.Choose(len(sizeNs))]
+		pts := make([]orb.Point, n)
+		for i := range pts {
+			pts[i] = orb.Point{float64(i%17) - 8, float64(i) * 0.5}
+		}
+		pts[n-1] = pts[0]
+		cp := func() []orb.Point { return append([]orb.Point(nil), pts...) }
+		switch k := c.Choose(6); k {
+		case 0:
+			checkGeometry(c, orb.MultiPoint(cp()))
+		case 1:
+			checkGeometry(c, orb.LineString(cp()))
+		case 2:
+			checkGeometry(c, orb.Polygon{{{0, 0}, {1, 0}, {1, 1}, {0, 0}}, orb.Ring(cp())})
+		case 3:
+			checkGeometry(c, orb.MultiLineString{{{1, 2}, {3, 4}}, orb.LineString(cp())})
+		case 4:
+			col := make(orb.Collection, 0, n)
+			for i := 0; i < n; i++ {
+				col = append(col, orb.Point{float64(i), 1})
+			}
+			checkGeometry(c, col)
+		default:
+			fc := geojson.NewFeatureCollection()
+			for i := 0; i < n; i++ {
+				f := geojson.NewFeature(orb.Point{float64(i), 2})
+				f.ID = float64(i)
+				fc.Append(f)
+			}
+			if b, err := json.Marshal(fc); err != nil {
+				c.Failf("json-marshal", "%v", err)
+			} else if got, err := geojson.UnmarshalFeatureCollection(b); err != nil || len(got.Features) != n {
+				c.Failf("fc-json", "a collection of %d features comes back with %v (%d features)", n, err, len(got.Features))
+			}
+			got := geojson.NewFeatureCollection()
+			if b, err := bson.Marshal(fc); err != nil {
+				c.Failf("bson-marshal", "%v", err)
+			} else if err := bson.Unmarshal(b, got); err != nil || len(got.Features) != n {
+				c.Failf("fc-bson", "a collection of %d features comes back through BSON with %v (%d features)", n, err, len(got.Features))
+			} else {
+				for i, f := range got.Features {
+					if !orb.Equal(f.Geometry, orb.Point{float64(i), 2}) {
+						c.Failf("fc-bson", "feature %d of %d comes back as %v", i, n, f.Geometry)
+						break
+					}
+				}
+			}
+		}
+		c.NonTrivial()
+	})
 	// configuration: the package-level CustomJSONMarshaler / CustomJSONUnmarshaler hooks. With a hook that
 	// behaves exactly like encoding/json every round trip must come out the same, and the hooks must be the
 	// ones doing the work (parts run one after the other, so the variables are constant during the part)
